@@ -128,4 +128,97 @@ theorem naive_eq_posix (s : Posix.Spec) (Y T : Int) (hT1 : ys Y ≤ T) (hT2 : T 
     unfold ys at *
     omega
 
+open Posix in
+/-- both transitions of year `y` lie inside year `y` with a margin `m` at both ends -/
+def InsideM (s : Posix.Spec) (y m : Int) : Prop :=
+  ys y + m ≤ startUtc s y ∧ startUtc s y + m ≤ ys (y + 1) ∧
+  ys y + m ≤ endUtc s y ∧ endUtc s y + m ≤ ys (y + 1)
+
+theorem InsideM.inside {s : Posix.Spec} {y m : Int} (h : InsideM s y m) (hm : 0 < m) : Inside s y := by
+  obtain ⟨a, b, c, d⟩ := h
+  exact ⟨by omega, by omega, by omega, by omega⟩
+
+theorem naiveIsdst_shift (x a b k : Int) :
+    RangeZone.naiveIsdst (x - k) (a - k, b - k) = RangeZone.naiveIsdst x (a, b) := by
+  unfold RangeZone.naiveIsdst
+  simp only
+  rw [Bool.eq_iff_iff]
+  by_cases c : a < b
+  · have c' : a - k < b - k := by omega
+    simp only [c, c', if_true, Bool.and_eq_true, decide_eq_true_eq]; omega
+  · have c' : ¬ a - k < b - k := by omega
+    simp only [c, c', if_false, ← Bool.decide_and, Bool.not_eq_true', decide_eq_false_iff_not]; omega
+
+open Posix in
+/-- **the wall-clock year's pair decides like the UTC year's pair.**  `T` lies in year `Y`, the
+    wall reading `T + o` (`o` the standard or the daylight offset) in year `Y−1`, `Y` or `Y+1`; in
+    all three years the transitions keep a margin `m ≥ |std|, |dst|, saving` from the year ends and
+    come in the same order.  Then the pair of the wall-clock year makes, at that reading, the same
+    naive decision and the same repeated-interval decision as the pair of year `Y`. -/
+theorem decisions_cohere (s : Posix.Spec) (m Y T o : Int) (hT1 : ys Y ≤ T) (hT2 : T < ys (Y + 1))
+    (hsav : s.stdOff < s.dstOff) (ho : o = s.stdOff ∨ o = s.dstOff)
+    (m1 : -m ≤ s.stdOff) (m2 : s.stdOff ≤ m) (m3 : -m ≤ s.dstOff) (m4 : s.dstOff ≤ m)
+    (m5 : s.dstOff - s.stdOff ≤ m)
+    (i0 : InsideM s (Y - 1) m) (i1 : InsideM s Y m) (i2 : InsideM s (Y + 1) m)
+    (o0 : startUtc s (Y - 1) < endUtc s (Y - 1) ↔ startUtc s Y < endUtc s Y)
+    (o2 : startUtc s (Y + 1) < endUtc s (Y + 1) ↔ startUtc s Y < endUtc s Y) :
+    ∃ y', (ys y' ≤ T + o ∧ T + o < ys (y' + 1)) ∧ (y' = Y - 1 ∨ y' = Y ∨ y' = Y + 1) ∧
+      RangeZone.naiveIsdst (T + o) (startUtc s y' + s.stdOff, endUtc s y' + s.stdOff) =
+        RangeZone.naiveIsdst (T + o) (startUtc s Y + s.stdOff, endUtc s Y + s.stdOff) ∧
+      (decide (endUtc s y' + s.stdOff ≤ T + o) && decide (T + o < endUtc s y' + s.stdOff + (s.dstOff - s.stdOff))) =
+        (decide (endUtc s Y + s.stdOff ≤ T + o) && decide (T + o < endUtc s Y + s.stdOff + (s.dstOff - s.stdOff))) := by
+  have e : Y - 1 + 1 = Y := by omega
+  obtain ⟨a0, a1, a2, a3⟩ := i0
+  obtain ⟨b0, b1, b2, b3⟩ := i1
+  obtain ⟨c0, c1, c2, c3⟩ := i2
+  rw [e] at a1 a3
+  by_cases hlo : T + o < ys Y
+  · refine ⟨Y - 1, ⟨by omega, by rw [e]; exact hlo⟩, Or.inl rfl, ?_, ?_⟩
+    · unfold RangeZone.naiveIsdst
+      simp only
+      rw [Bool.eq_iff_iff]
+      by_cases hN : startUtc s Y < endUtc s Y
+      · have h0 := o0.mpr hN
+        have h0' : startUtc s (Y - 1) + s.stdOff < endUtc s (Y - 1) + s.stdOff := by omega
+        have hN' : startUtc s Y + s.stdOff < endUtc s Y + s.stdOff := by omega
+        simp only [h0', hN', if_true, Bool.and_eq_true, decide_eq_true_eq]
+        rcases ho with h | h <;> subst h <;> omega
+      · have h0 : ¬ startUtc s (Y - 1) < endUtc s (Y - 1) := fun h => hN (o0.mp h)
+        have h0' : ¬ startUtc s (Y - 1) + s.stdOff < endUtc s (Y - 1) + s.stdOff := by omega
+        have hN' : ¬ startUtc s Y + s.stdOff < endUtc s Y + s.stdOff := by omega
+        simp only [h0', hN', if_false, ← Bool.decide_and, Bool.not_eq_true', decide_eq_false_iff_not]
+        rcases ho with h | h <;> subst h <;> omega
+    · rw [Bool.eq_iff_iff]
+      simp only [Bool.and_eq_true, decide_eq_true_eq]
+      rcases ho with h | h <;> subst h <;> omega
+  by_cases hhi : ys (Y + 1) ≤ T + o
+  · refine ⟨Y + 1, ⟨hhi, by rcases ho with h | h <;> subst h <;> omega⟩, Or.inr (Or.inr rfl), ?_, ?_⟩
+    · unfold RangeZone.naiveIsdst
+      simp only
+      rw [Bool.eq_iff_iff]
+      by_cases hN : startUtc s Y < endUtc s Y
+      · have h2 := o2.mpr hN
+        have h2' : startUtc s (Y + 1) + s.stdOff < endUtc s (Y + 1) + s.stdOff := by omega
+        have hN' : startUtc s Y + s.stdOff < endUtc s Y + s.stdOff := by omega
+        simp only [h2', hN', if_true, Bool.and_eq_true, decide_eq_true_eq]
+        rcases ho with h | h <;> subst h <;> omega
+      · have h2 : ¬ startUtc s (Y + 1) < endUtc s (Y + 1) := fun h => hN (o2.mp h)
+        have h2' : ¬ startUtc s (Y + 1) + s.stdOff < endUtc s (Y + 1) + s.stdOff := by omega
+        have hN' : ¬ startUtc s Y + s.stdOff < endUtc s Y + s.stdOff := by omega
+        simp only [h2', hN', if_false, ← Bool.decide_and, Bool.not_eq_true', decide_eq_false_iff_not]
+        rcases ho with h | h <;> subst h <;> omega
+    · rw [Bool.eq_iff_iff]
+      simp only [Bool.and_eq_true, decide_eq_true_eq]
+      rcases ho with h | h <;> subst h <;> omega
+  · exact ⟨Y, ⟨by omega, by omega⟩, Or.inr (Or.inl rfl), rfl, rfl⟩
+
+theorem amb_shift (x b sav k : Int) :
+    (decide (b - k ≤ x - k) && decide (x - k < b - k + sav)) = (decide (b ≤ x) && decide (x < b + sav)) := by
+  rw [Bool.eq_iff_iff]; simp only [Bool.and_eq_true, decide_eq_true_eq]; omega
+
+theorem ys_ge (y : Int) (h : 1 ≤ y) : 86400 ≤ ys y := by
+  have := ystart_mono 1 y h
+  have e : toOrdinal 1 1 1 = 1 := by decide
+  unfold ys; omega
+
 end TZ
